@@ -396,7 +396,7 @@ class C15(CheckBase):
                    "block": case["block"], "spec": case["templates"][0]}
             w = subprocess.run([sys.executable, "-m", "sim.c15child",
                                 json.dumps(arg)], cwd=VERIF_ROOT, env=env,
-                               capture_output=True, text=True, timeout=120)
+                               capture_output=True, text=True, timeout=600)
             crashed_real = w.returncode == 137
             if w.returncode not in (0, 137):
                 return {"harness": "realproc writer failed: " +
@@ -409,7 +409,7 @@ class C15(CheckBase):
                                             "dir": os.path.join(root, "cache"),
                                             "spec": case["templates"][0]})],
                                cwd=VERIF_ROOT, env=env, capture_output=True,
-                               text=True, timeout=120)
+                               text=True, timeout=600)
             line = [x for x in o.stdout.splitlines() if x.startswith("CHILD ")]
             if o.returncode != 0 or not line:
                 return {"harness": "realproc observer failed: " +
